@@ -236,8 +236,12 @@ static void malformed_case(uint64_t index)
   int certainly_bad = 0;
   if (tool == 0) {
     args[a++] = "-i"; args[a++] = input_arg; args[a++] = "-q";
-    unsigned k = (unsigned)hv_below(&R, 4);
-    if (k == 0) { args[a++] = (char *)bad_loc[hv_below(&R, sizeof bad_loc / sizeof *bad_loc)]; certainly_bad = 1; }
+    unsigned k = (unsigned)hv_below(&R, 6);
+    static const char *const bad_nested[] = { "machine:0.pu:foo", "machine:0.pu:1-x", "machine:0.pu:", "machine:0.pu:0.", "machine:all.pu:0x", "machine:0.nosuchtype:0", "machine:0.pu:0:" };
+    static const char *const type_opt[] = { "-N", "-I", "-H", "--number-of", "--intersect", "--hierarchical" };
+    if (k == 4) { args[a++] = (char *)bad_nested[hv_below(&R, sizeof bad_nested / sizeof *bad_nested)]; certainly_bad = 1; }     /* the garbage is in the sub-location of a valid location */
+    else if (k == 5) { unsigned w = (unsigned)hv_below(&R, 6); args[a++] = (char *)type_opt[w]; args[a++] = (w == 2 || w == 5) && hv_chance(&R, 1, 2) ? "core.nosuchtype" : "nosuchtype"; args[a++] = "all"; certainly_bad = 1; }   /* an option naming a type that does not exist */
+    else if (k == 0) { args[a++] = (char *)bad_loc[hv_below(&R, sizeof bad_loc / sizeof *bad_loc)]; certainly_bad = 1; }
     else if (k == 1) { args[a++] = (char *)bad_opt[hv_below(&R, sizeof bad_opt / sizeof *bad_opt)]; args[a++] = "pu:0"; certainly_bad = 1; }
     else if (k == 2) { memset(longtok, 'c', 4500); longtok[4500] = 0; memcpy(longtok, "core:", 5); args[a++] = longtok; certainly_bad = 1; }
     else if (hv_chance(&R, 1, 2)) { static char far[64]; snprintf(far, sizeof far, "%s:%u-", hv_chance(&R, 1, 2) ? "pu" : "core", 300 + (unsigned)hv_below(&R, 5000)); args[a++] = far; certainly_bad = 0; }   /* an index beyond the level: must terminate */
